@@ -89,7 +89,7 @@ func runQuery(c *sut.Client, index, text string, start, end uint64, n int) (vidS
 			return nil, fmt.Errorf("server process died on query %q: %s", text, pt.CrashDetail(c))
 		}
 		if errors.Is(err, sut.ErrTimeout) {
-			return nil, fmt.Errorf("query %q did not return (hang): %s", text, pt.CrashDetail(c))
+			return nil, pt.Inconclusivef("query %q exceeded the per-command time budget", text)
 		}
 		return nil, fmt.Errorf("query %q: %v", text, err)
 	}
